@@ -26,6 +26,8 @@ pub enum Call {
     ExplicitClose { rid: ResourceId },
     /// process_completions() returned `n` completions
     Completions { n: usize },
+    /// native mode only: the real backend did something the id-level description does not predict
+    Surprise(String),
 }
 
 #[derive(Clone, Debug)]
@@ -46,6 +48,8 @@ pub struct State {
     pub type_ids: HashMap<String, usize>,
     pub result_infos: HashMap<String, ResultTupleInfo>,
     pub set_type_ids_calls: usize,
+    /// native mode: the real `NativeEffectBackend` is behind this log (file / directory kinds only)
+    pub native: bool,
 }
 
 #[derive(Clone)]
@@ -112,8 +116,15 @@ pub fn named_rid(e: &NativeEffect) -> Option<ResourceId> {
     }
 }
 
-/// Does the outside world let this operation succeed? A pure function of the request.
-pub fn world_ok(e: &NativeEffect) -> bool {
+/// Does the outside world let this operation succeed? A pure function of the request. In native
+/// mode only missing paths fail (reads / writes / fsync on a file opened read-write succeed).
+pub fn world_ok(e: &NativeEffect, native: bool) -> bool {
+    if native {
+        return match e {
+            NativeEffect::FileOpen { path, .. } | NativeEffect::ReadDirOpen { path } => !path.starts_with(b"/fail"),
+            _ => true,
+        };
+    }
     match e {
         NativeEffect::FileOpen { path, .. }
         | NativeEffect::ReadDirOpen { path }
@@ -147,7 +158,7 @@ impl EffectBackend for FakeBackend {
     fn execute(&mut self, pid: ProcessId, effect: NativeEffect) -> Result<Option<EffectResult>, quiver_core::error::Error> {
         let mut s = self.0.lock();
         let kind = kind_of(&effect);
-        let w = world_ok(&effect);
+        let w = world_ok(&effect, false);
         let rid = named_rid(&effect);
         s.calls.push(Call::Execute { pid, kind, rid: rid.unwrap_or(0), w });
         let refuse = || Err(quiver_core::error::Error::InvalidArgument(format!("world refuses {kind}")));
@@ -272,5 +283,161 @@ impl EffectBackend for FakeBackend {
         for (n, info) in results {
             s.result_infos.insert(n.clone(), info.clone());
         }
+    }
+}
+
+
+/// Instrumenting wrapper around the REAL `quiver_io::NativeEffectBackend` (io_uring) over a
+/// scratch directory: `/ok/<name>` and `/fail/<name>` paths are mapped into it (the former are
+/// created on demand, the latter never exist). It logs the same `Call`s as the fake and mirrors the
+/// registry / allocator / pending queue from what the real backend answers, so the same
+/// correspondence and oracle run on top of it; anything the id-level description of the backend
+/// (the model's `Backend.execute`, the fake above) does not predict is logged as `Surprise`.
+/// To keep runs reproducible, `process_completions` waits until every submitted operation has
+/// completed and hands completions out in submission order (`release` still limits how many).
+pub struct WrapBackend {
+    pub inner: quiver_io::NativeEffectBackend,
+    pub sh: BShared,
+    pub dir: std::path::PathBuf,
+    buffered: HashMap<ProcessId, EffectResult>,
+}
+
+impl WrapBackend {
+    pub fn new(sh: BShared, dir: std::path::PathBuf) -> Option<WrapBackend> {
+        let inner = quiver_io::NativeEffectBackend::new(64).ok()?;
+        std::fs::create_dir_all(&dir).ok()?;
+        sh.lock().native = true;
+        Some(WrapBackend { inner, sh, dir, buffered: HashMap::new() })
+    }
+
+    fn map_path(&self, path: &[u8], is_dir: bool) -> Vec<u8> {
+        let s = String::from_utf8_lossy(path).to_string();
+        let name = s.rsplit('/').next().unwrap_or("x").to_string();
+        if s.starts_with("/ok/") {
+            let p = self.dir.join(&name);
+            if is_dir {
+                let _ = std::fs::create_dir_all(&p);
+                let _ = std::fs::write(p.join("entry"), b"e");
+            } else if !p.exists() {
+                let _ = std::fs::write(&p, b"hello world, this is a scratch file\n");
+            }
+            p.to_string_lossy().as_bytes().to_vec()
+        } else {
+            self.dir.join("missing").join(&name).to_string_lossy().as_bytes().to_vec()
+        }
+    }
+}
+
+impl EffectBackend for WrapBackend {
+    type E = NativeEffect;
+
+    fn execute(&mut self, pid: ProcessId, effect: NativeEffect) -> Result<Option<EffectResult>, quiver_core::error::Error> {
+        let kind = kind_of(&effect);
+        let w = world_ok(&effect, true);
+        let rid = named_rid(&effect);
+        let was_open = rid.map(|r| self.sh.lock().open.contains(&r));
+        self.sh.lock().calls.push(Call::Execute { pid, kind, rid: rid.unwrap_or(0), w });
+        let mapped = match effect.clone() {
+            NativeEffect::FileOpen { path, flags, mode } => NativeEffect::FileOpen { path: self.map_path(&path, false), flags, mode },
+            NativeEffect::ReadDirOpen { path } => NativeEffect::ReadDirOpen { path: self.map_path(&path, true) },
+            NativeEffect::Stat { path } => NativeEffect::Stat { path: self.map_path(&path, false) },
+            other => other,
+        };
+        let reply = self.inner.execute(pid, mapped);
+        let mut s = self.sh.lock();
+        let creating = matches!(effect, NativeEffect::FileOpen { .. } | NativeEffect::ReadDirOpen { .. });
+        let closing = matches!(effect, NativeEffect::FileClose { .. } | NativeEffect::ReadDirClose { .. });
+        let asynchronous = matches!(effect, NativeEffect::FileRead { .. } | NativeEffect::FileWrite { .. } | NativeEffect::FileFlush { .. });
+        // what the id-level description predicts
+        let predicted = if creating {
+            if w { "new" } else { "err" }
+        } else if was_open == Some(false) {
+            "err"
+        } else if asynchronous {
+            "submitted"
+        } else {
+            "ok"
+        };
+        let actual = match &reply {
+            Ok(Some(Ok((Value::Resource(r, _), _)))) => {
+                if *r != s.next {
+                    let exp = s.next;
+                    s.calls.push(Call::Surprise(format!("{kind}: new id {r}, expected {exp}")));
+                }
+                s.open.insert(*r);
+                s.next = *r + 1;
+                "new"
+            }
+            Ok(Some(Ok(_))) => {
+                if closing && let Some(r) = rid {
+                    s.open.remove(&r);
+                    s.calls.push(Call::ExplicitClose { rid: r });
+                }
+                "ok"
+            }
+            Ok(Some(Err(_))) => "completion-err",
+            Ok(None) => {
+                s.pending.push_back((pid, Pending::Plain { ok: true, kind: "native", len: 0 }));
+                "submitted"
+            }
+            Err(_) => "err",
+        };
+        if predicted != actual {
+            s.calls.push(Call::Surprise(format!("{kind} {:?} by {pid}: real backend answered `{actual}`, id-level description predicts `{predicted}` ({reply:?})", rid)));
+        }
+        reply
+    }
+
+    fn process_completions(&mut self) -> Vec<(ProcessId, EffectResult)> {
+        let want = self.sh.lock().pending.len();
+        if want == 0 {
+            return self.inner.process_completions();
+        }
+        let start = std::time::Instant::now();
+        loop {
+            for (pid, r) in self.inner.process_completions() {
+                self.buffered.insert(pid, r);
+            }
+            if self.buffered.len() >= want {
+                break;
+            }
+            if start.elapsed().as_millis() > 3000 {
+                self.sh.lock().calls.push(Call::Surprise(format!("{} of {want} submitted operations did not complete within 3 s", want - self.buffered.len())));
+                break;
+            }
+            std::thread::sleep(std::time::Duration::from_micros(30));
+        }
+        let mut s = self.sh.lock();
+        let n = s.release.unwrap_or(usize::MAX).min(s.pending.len());
+        s.release = None;
+        let mut out = vec![];
+        for _ in 0..n {
+            let Some((pid, _)) = s.pending.front().cloned() else { break };
+            let Some(r) = self.buffered.remove(&pid) else { break };
+            s.pending.pop_front();
+            if r.is_err() {
+                s.calls.push(Call::Surprise(format!("completion for {pid} is an error: {r:?}")));
+            }
+            out.push((pid, r));
+        }
+        if !out.is_empty() {
+            let n = out.len();
+            s.calls.push(Call::Completions { n });
+        }
+        out
+    }
+
+    fn close_resource(&mut self, resource_id: ResourceId) {
+        {
+            let mut s = self.sh.lock();
+            let effective = s.open.remove(&resource_id);
+            s.calls.push(Call::Close { rid: resource_id, effective });
+        }
+        self.inner.close_resource(resource_id);
+    }
+
+    fn set_type_ids(&mut self, resources: &[String], results: &[(String, ResultTupleInfo)]) {
+        self.sh.lock().set_type_ids_calls += 1;
+        self.inner.set_type_ids(resources, results);
     }
 }
